@@ -16,7 +16,18 @@ import (
 
 type symStr struct {
 	b      []value // each element is uint8 or symInt{Uint8}
-	opaque string  // non-empty: text built from symbolic values for messages only; any inspection aborts the path
+	opaque string  // non-empty: display text of a not yet rendered string (see lazy)
+	lazy   func() []value // renders the bytes on first inspection (may fork to make symbolic integers concrete)
+}
+
+// force renders a lazily formatted string.
+func (x *symStr) force() {
+	if x.lazy != nil {
+		f := x.lazy
+		x.lazy = nil
+		x.b = f()
+		x.opaque = ""
+	}
 }
 
 func strElems(x value) []value {
@@ -28,9 +39,7 @@ func strElems(x value) []value {
 		}
 		return r
 	case *symStr:
-		if x.opaque != "" {
-			unsupported("control or data flow depends on an opaque message string: %s", x.opaque)
-		}
+		x.force()
 		return x.b
 	}
 	panic(fmt.Sprintf("strElems: %T", x))
@@ -63,9 +72,7 @@ func strLen(x value) int {
 	case string:
 		return len(x)
 	case *symStr:
-		if x.opaque != "" {
-			unsupported("length of an opaque message string")
-		}
+		x.force()
 		return len(x.b)
 	}
 	panic("strLen")
@@ -125,7 +132,10 @@ func symStrBinop(op token.Token, x, y value) value {
 	switch op {
 	case token.ADD:
 		if ox, oy := opaqueText(x), opaqueText(y); ox != "" || oy != "" {
-			return &symStr{opaque: displayStr(x) + displayStr(y)}
+			return &symStr{opaque: displayStr(x) + displayStr(y), lazy: func() []value {
+				a, b := strElems(x), strElems(y)
+				return append(append([]value{}, a...), b...)
+			}}
 		}
 		a, b := strElems(x), strElems(y)
 		r := make([]value, 0, len(a)+len(b))
